@@ -212,7 +212,7 @@ def _judge1(sd, recs, tag, timeout):
     return r, rep
 
 
-def judge(chk, sd, recs, name, timeout=2400, chunk=300):
+def judge(chk, sd, recs, name, timeout=2400, chunk=600):
     """SandboxPath_Trace over the records, in chunks judged by parallel TLC processes; the reports are merged
     (record indices become global, counts per key are summed)."""
     tag = re.sub(r"\W+", "_", name or "selftest")[:24]
@@ -365,11 +365,31 @@ def run():
         t0 = time.time()
         outsP, _ = run_sharded(sd, binp, cal, "plain", CORE, "P", 2)
         vf.log("calibration: %d cases in %.0fs" % (len(cal), time.time() - t0))
-        # 7. the contract
+        # 7. the contract (the two self-test records of step 8 ride along at the end: one JVM start less)
         recs = records(probe, outsA, "sand") + records(cases, outsB, "sand") + sysA + sysB + records(cal, outsP, "plain")
+        donors = [x for x in recs if x["m"] == "sand" and any(all(e["loc"][:3] == ["a", "w", "root"] for e in g["e"]) and g["e"] for g in x["groups"])]
+        pl = [x for x in recs if x["m"] == "plain" and any(c["e"] for c in x["core"])]
+        if not donors or not pl:
+            raise vf.NoVerdict("self-test: no sandboxed record with an inside effect / no calibration record with an effect")
+        d = json.loads(json.dumps(rng.choice(donors)))
+        gi = next(i for i, g in enumerate(d["groups"]) if g["e"] and all(e["loc"][:3] == ["a", "w", "root"] for e in g["e"]))
+        d["groups"] = [dict(d["groups"][gi], fns=["selftest.fn#0"])]
+        d["groups"][0]["e"][0]["loc"] = ["a", "w", "out", "s"]
+        d["core"] = []
+        q = json.loads(json.dumps(rng.choice(pl)))
+        ci = next(i for i, c in enumerate(q["core"]) if c["e"])
+        q["core"][ci]["e"][0]["loc"] = q["core"][ci]["e"][0]["loc"] + ["zz"]
+        nreal = len(recs)
         t0 = time.time()
-        rep = judge(chk, sd, recs, "contract (sandboxed effects, strace paths, calibration)")
-        vf.log("contract: %d records judged in %.0fs" % (len(recs), time.time() - t0))
+        rep = judge(chk, sd, recs + [d, q], "contract (sandboxed effects, strace paths, calibration)")
+        vf.log("contract: %d records judged in %.0fs" % (nreal, time.time() - t0))
+        st_bad = [x for x in rep["bad"] if x["key"].startswith("selftest.fn#0/")]
+        st_cal = [x for x in rep["calbad"] if x["idx"] == nreal + 2]
+        rep["bad"] = [x for x in rep["bad"] if not x["key"].startswith("selftest.fn#0/")]
+        rep["calbad"] = [x for x in rep["calbad"] if x["idx"] <= nreal]
+        rep["n"] -= 2
+        for k, dv in (("judged", 1), ("pairs", 1), ("outside", 1), ("cal", len(q["core"])), ("calok", len(q["core"]) - len(st_cal))):
+            rep["cnt"][k] -= dv
         cnt = rep["cnt"]
         if rep["n"] != len(recs) or cnt["skipped"]:
             raise vf.NoVerdict("contract run judged %s of %d records, %s outside the spec's domain" % (rep["n"], len(recs), cnt["skipped"]))
@@ -394,22 +414,10 @@ def run():
             chk.violation(b["key"], "sandboxed %s reached outside the sandbox root: spelling %r on tree %s -> observed %s (%d cases of this class)"
                           % (fn, sp_text(rr["sp"]), tree_text(rr["nodes"]), json.dumps(seen)[:600], b["count"]),
                           {"fn": fn, "mode": rr["m"], "case": case, "observed": seen})
-        # 8. binding self-test: an effect moved outside / a perturbed calibration record must be reported
-        donors = [x for x in recs if x["m"] == "sand" and any(all(e["loc"][:3] == ["a", "w", "root"] for e in g["e"]) and g["e"] for g in x["groups"])]
-        pl = [x for x in recs if x["m"] == "plain" and any(c["e"] for c in x["core"])]
-        if not donors or not pl:
-            raise vf.NoVerdict("self-test: no sandboxed record with an inside effect / no calibration record with an effect")
-        d = json.loads(json.dumps(rng.choice(donors)))
-        gi = next(i for i, g in enumerate(d["groups"]) if g["e"] and all(e["loc"][:3] == ["a", "w", "root"] for e in g["e"]))
-        d["groups"] = [d["groups"][gi]]
-        d["groups"][0]["e"][0]["loc"] = ["a", "w", "out", "s"]
-        q = json.loads(json.dumps(rng.choice(pl)))
-        ci = next(i for i, c in enumerate(q["core"]) if c["e"])
-        q["core"][ci]["e"][0]["loc"] = q["core"][ci]["e"][0]["loc"] + ["zz"]
-        st = judge(chk, sd, [d, q], None)
-        if len(st["bad"]) < 1 or not any(b["idx"] == 1 for b in st["bad"]) or not any(b["idx"] == 2 for b in st["calbad"]):
-            raise vf.NoVerdict("binding self-test failed: perturbed records were not reported (%s)" % json.dumps(st)[:800])
-        chk.cov["binding_selftest"] = "an inside effect moved to /a/w/out/s was reported as %s; a perturbed calibration effect was reported" % st["bad"][0]["key"]
+        # 8. binding self-test: the effect moved outside / the perturbed calibration record must have been reported
+        if not (len(st_bad) == 1 and st_bad[0]["idx"] == nreal + 1 and len(st_cal) == 1):
+            raise vf.NoVerdict("binding self-test failed: perturbed records were not reported (%s %s)" % (json.dumps(st_bad)[:400], json.dumps(st_cal)[:400]))
+        chk.cov["binding_selftest"] = "an inside effect moved to /a/w/out/s was reported as %s; a perturbed calibration effect was reported" % st_bad[0]["key"]
         # 9. evidence
         chk.cov["traces_validated_against_impl"] = cnt["judged"]
         chk.cov["evaluations"] = cnt["pairs"] + cnt["cal"]
@@ -432,7 +440,6 @@ def run():
                         "observed": outsB[c["id"]]["groups"][:4]})
         if dev:
             chk.cov["states"] = max(chk.cov["states"], 1)
-            json.dump([{"key": k, "what": w, "replay": r_} for k, w, r_ in chk.cands], open("/var/tmp/c26dev/cands.json", "w"), indent=1)
             for k, w, _r in chk.cands:
                 print("DEV candidate:", k, w[:300])
             rc = chk.finish()
